@@ -13,7 +13,7 @@ class A(Adapter):
     serves = {"C01", "C04", "C05", "C07", "C08", "C09", "C10", "C11", "C12"}
     terminate_on_invalid = False
     max_steps = 60
-    ops = ("state", "step", "judge", "instance", "bounds")
+    ops = ("state", "step", "judge", "instance", "bounds", "spec")
     state_fields = ["agent_position", "target_position", "walls", "action_mask", "step_count"]
 
     def configs(self, tier):
@@ -58,6 +58,17 @@ class A(Adapter):
         """the environment treated `a` as a no-op: a move that is carried out always changes the position"""
         return bool(int(s.agent_position.row) == int(s2.agent_position.row)
                     and int(s.agent_position.col) == int(s2.agent_position.col))
+
+    # ---- wave 4 (hook of the C09 / C12 sweeps): declared specs vs the model's obsSpec (all seven leaves, every configuration),
+    # reset timestep, observation arrays (toNValue layout), (obsSpec cfg).valid vs observation_spec.validate and the invariant
+    # SpecInv on implementation states at reset, along play and on the terminal step (harness/wave3_routing.py; theorems
+    # maze_obsSpec_generated, maze_*_obs_valid, maze_specInv_invariant, maze_obs_valid_along)
+    def synthetic(self, ctx, cfg, env, runner, rng, drv):
+        import wave3_routing as w3
+
+        w3.check_specs(ctx, self, cfg, env, drv)
+        w3.check_reset_and_obs(ctx, self, cfg, env, runner, rng, drv, 2 if ctx.quick else 6, 12 if ctx.quick else 60,
+                               policies=("uniform", "masked"), extra="spec_inv")
 
     def horizon(self, env):
         return int(env.time_limit)
